@@ -253,12 +253,12 @@ pub fn check(case: &Case, st: &mut Stats) -> Result<(), Violation> {
 }
 
 pub fn run(ctx: &Ctx, st: &mut Stats) -> Vec<Violation> {
-    let mut v = run_proptest(ctx, st, "random", ctx.pick(30000, 1500000), strategy, check);
+    let mut v = run_proptest(ctx, st, "random", ctx.cases(150_000, 3_000_000), strategy, check);
     if !v.is_empty() {
         return v;
     }
     // enumerated lattice on [0,1]^3
-    let side: usize = ctx.pick(65, 256);
+    let side: usize = ctx.pick(129, 256);
     v.extend(par_sweep(ctx, st, side as u64, |lo, hi, st| {
         for zi in lo..hi {
             let f = |i: usize| (i as f64 / (side - 1) as f64) as f32;
